@@ -213,12 +213,12 @@ fn judge_build(proto: Proto, pk: &[u8], t0_ns: i128, m: &M, out: &Out<String>, b
                     None => c13(v, "exp-missing-without-acknowledgement", format!("no acknowledgement, but the token carries no (valid) exp: payload {}", payload)),
                     Some(e) => {
                         if m.cnt[0] == 0 {
-                            // "exactly one hour after iat": the default iat when the caller left it alone
-                            let base = if iat_default { iat } else { Some(t0_ns) };
-                            if let Some(b) = base {
-                                if e - b != 3600 * 1_000_000_000 {
-                                    c13(v, "exp-not-one-hour-after-iat", format!("default exp - iat = {} ns (exp {:?})", e - b, obj.get("exp")));
-                                }
+                            // "exactly one hour after iat": when the caller supplied its own iat the text can be
+                            // read either way (one hour after that iat, or after the creation time): both pass
+                            let hour = 3600 * 1_000_000_000i128;
+                            let ok = if iat_default { iat.map_or(false, |b| e - b == hour) } else { e - t0_ns == hour || iat.map_or(false, |b| e - b == hour) };
+                            if !ok {
+                                c13(v, "exp-not-one-hour-after-iat", format!("default exp {:?} is not one hour after iat {:?} (creation time {})", obj.get("exp"), obj.get("iat"), t0_ns));
                             }
                         }
                     }
@@ -243,7 +243,10 @@ fn judge_build(proto: Proto, pk: &[u8], t0_ns: i128, m: &M, out: &Out<String>, b
                     // latitude: exp supplied after the acknowledgement may be refused or ignored
                     want.remove("exp");
                 }
-                let got: std::collections::BTreeSet<&String> = obj.keys().collect();
+                // whether a claim with the empty key is emitted or dropped is not fixed by any property
+                let empty = String::new();
+                let mut got: std::collections::BTreeSet<&String> = obj.keys().collect();
+                got.remove(&empty);
                 let wantk: std::collections::BTreeSet<&String> = want.keys().collect();
                 if got != wantk {
                     c17(v, "payload-members-differ", format!("payload members {:?}, expected {:?}", got, wantk));
